@@ -179,6 +179,8 @@ impl Send {
         // Need to notify the connection when pushing onto pending_open since
         // queue_frame only notifies for pending_send.
         if pending_open {
+            #[cfg(feature = "verif-hooks")]
+            crate::verif::ev("conn.task_wake", || vec![2, task.is_some() as i64]);
             if let Some(task) = task.take() {
                 task.wake();
             }
